@@ -24,6 +24,7 @@ var engDebug = os.Getenv("PCHECK_DEBUG") != ""
 type Engine struct {
 	itabMu  sync.Mutex
 	pure    map[*ssa.Function]bool
+	writes  map[*ssa.Function]bool
 	itables map[string]*[256]int64
 	derived map[string]*[256]bool
 	r       *core.Run
